@@ -30,8 +30,8 @@ ASSUMPTIONS = [
     "constants / deriver outputs never collide with item keys of any operand; value lists hold distinct hashable values",
     "Sweep({}) (no items): both [] (pinned by tests/test_sweep.py) and the single empty combination are accepted; "
     "only len == len(list()) and iteration == list() are demanded there",
-    "count_sweep: the order of the root arguments inside a key tuple is not fixed by the statement - any one "
-    "permutation (consistent within a dependency) is accepted; with use_pandas scalar keys count as 1-tuples and "
+    "count_sweep: a root-argument tuple lists the values in the order of pipeline.root_args(dependency) as reported "
+    "by the same pipeline object; with use_pandas scalar keys count as 1-tuples and "
     "only non-empty sweeps without derivers are submitted; the output itself may or may not be listed",
     "a.product() without operands and MultiSweep.product / MultiSweep.filtered_sweep are outside the statement "
     "(observed as counters only)",
@@ -269,8 +269,15 @@ def probe_count(case):
         except Exception:  # noqa: BLE001
             fails.append((f"{tag}:malformed-counts", short(cnt)))
             continue
-        if not any(norm == M.count_model(combos, list(p)) for p in itertools.permutations(roots)):
-            fails.append((f"{tag}:counts", f"{dep}: got {short(norm)}; expected (root args {roots}) {short(M.count_model(combos, roots))}"))
+        # a "root-argument tuple" lists the values in the order of pipeline.root_args(dep) (public API of the same
+        # pipeline object) - that is how a caller builds the key to look a count up
+        order = list(pipeline.root_args(dep))
+        if sorted(order) != sorted(roots):
+            fails.append((f"{tag}:root-args", f"{dep}: pipeline.root_args = {order}, harness analysis = {roots}"))
+            continue
+        if norm != M.count_model(combos, order):
+            kind = "counts-keyed-in-another-order" if any(norm == M.count_model(combos, list(p)) for p in itertools.permutations(roots)) else "counts"
+            fails.append((f"{tag}:{kind}", f"{dep}: got {short(norm)}; expected (root args {order}) {short(M.count_model(combos, order))}"))
     return fails, {"got": got}
 
 
